@@ -73,6 +73,16 @@ pub(crate) struct FlushWorker<T: Types> {
     /// `Relaxed` is sufficient because the actual data synchronization is
     /// provided by the `RwLock` on `PayloadCache`.
     done_seq: Arc<AtomicU64>,
+
+    /// Whether the latest sync failed. Cleared by the next successful sync.
+    ///
+    /// While set, chunk files must not be removed: the purge record that made
+    /// them obsolete may not be durable yet.
+    sync_failed: bool,
+
+    /// Chunk paths whose removal is postponed because of a failed sync, in
+    /// removal order (oldest first).
+    pending_removals: Vec<String>,
 }
 
 impl<T: Types> FlushWorker<T> {
@@ -97,6 +107,8 @@ impl<T: Types> FlushWorker<T> {
             files: vec![file_entry],
             cache,
             done_seq,
+            sync_failed: false,
+            pending_removals: Vec::new(),
         }
     }
 
@@ -157,6 +169,7 @@ impl<T: Types> FlushWorker<T> {
                 let sync_result = if need_sync {
                     let upto_offset = batch.last().unwrap().upto_offset;
                     let res = self.sync_all_files(upto_offset);
+                    self.sync_failed = res.is_err();
                     if let Err(ref e) = res {
                         log::error!(
                             "Failed to flush upto offset {}: {}",
@@ -224,8 +237,17 @@ impl<T: Types> FlushWorker<T> {
             }
             WorkerRequest::RemoveChunks { chunk_paths } => {
                 info!("FlushWorker: RemoveChunks: {:?}", chunk_paths);
-                for path in chunk_paths {
-                    std::fs::remove_file(path)?;
+                self.pending_removals.extend(chunk_paths);
+                if self.sync_failed {
+                    // Keep the files until a later sync succeeds.
+                    log::warn!(
+                        "FlushWorker: last sync failed, postpone removing: {:?}",
+                        self.pending_removals
+                    );
+                } else {
+                    for path in self.pending_removals.drain(..) {
+                        std::fs::remove_file(path)?;
+                    }
                 }
             }
         }
